@@ -3,7 +3,8 @@ C03, o5m part — hostile o5m input never makes the decoder read outside the dat
 reference table, never violates a callee's precondition, and the decoder terminates.
 
 The model (`Osmium.O5m`, transcribed from o5m_input_format.hpp as repaired by 0243f9d, 638f5ce,
-d878353, 973cf14, 9d3a6e9) makes every read of every decoder explicit: a read through a pointer
+d878353, 973cf14, 9d3a6e9 and f1844ef: datasets skipped by the entity filter are still decoded, their
+errors are thrown and their effect on the delta counters / reference table is kept) makes every read of every decoder explicit: a read through a pointer
 that stands at the dataset's `end`, or that has left its 256-byte table slot, is the outcome
 `Res.oob`; a call of `set_user(const char*)` with a name of ≥ 65535 bytes is `Res.ub`.
 `o5m_hostile_safe` shows: for EVERY byte string, every chunking, every entity filter and both
